@@ -1185,11 +1185,13 @@ func c08InEmittedLoop(in ssa.Instruction, val ssa.Value, fns []*ssa.Function, go
 			pi = i
 		}
 	}
-	sites := callSitesOf(f, fns)
-	if len(sites) == 0 || pi < 0 {
+	// the helper may also run as a method value handed to the function that holds the loop (`b.eachEmitted(r.emit)`)
+	vsites, complete := runSitesThroughValues(f, fns)
+	if len(vsites) == 0 || pi < 0 || !complete {
 		return false, notIn
 	}
-	for _, site := range sites {
+	for _, vs := range vsites {
+		site := vs.site
 		if _, isCall := site.(*ssa.Call); !isCall {
 			return false, "the send is made from a goroutine (or deferred): messages of one action can be reported out of order"
 		}
@@ -1199,10 +1201,10 @@ func c08InEmittedLoop(in ssa.Instruction, val ssa.Value, fns []*ssa.Function, go
 			}
 		}
 		args := site.Common().Args
-		if pi >= len(args) {
+		if pi-vs.shift < 0 || pi-vs.shift >= len(args) {
 			return false, notIn
 		}
-		if ok, why := c08InEmittedLoop(site, args[pi], fns, goBodies, depth+1); !ok {
+		if ok, why := c08InEmittedLoop(site, args[pi-vs.shift], fns, goBodies, depth+1); !ok {
 			return false, why
 		}
 	}
